@@ -452,7 +452,7 @@ func genC05Filter(c *ctx) {
 		}
 		out := make([]string, len(items))
 		for i, it := range items {
-			if it[0] == 't' && it[1:] != "-" {
+			if it[1:] != "-" { // the temp file name of the trace log can also end up in a clipboard call
 				b, _ := hex.DecodeString(it[1:])
 				if logRe.Match(b) {
 					b = logRe.ReplaceAll(b, []byte("LOG"))
